@@ -53,6 +53,7 @@ def shards(tier, seed):
                 out.append(dict(name="di/A%d/L%d/%d" % (A, L, k), kind="di", A=A, L=L, part=k, parts=nsh, weight=A ** L * L * 20 // nsh))
     out.append(dict(name="sweep/mono", kind="sweep_mono", weight=3000))
     out.append(dict(name="sweep/di", kind="sweep_di", weight=6000))
+    out.append(dict(name="variants", kind="variants", weight=5000))
     return out
 
 
@@ -392,9 +393,86 @@ def run_sweep_mono(rec, tier, seed):
     rec.sample(dict(kind="sweep_mono", lengths="1..300,1000,40000", regions="default, whole, interior, negative ends"))
 
 
+def run_variants(rec, tier, seed):
+    """Every legal way of handing the same sequence over - storage dtype (half precision, integer, bool, double),
+    verbose on/off, n - must give shuffles with the input's counts; lengths straddle the exact-integer range of
+    float16 (2048) and bfloat16 (256)."""
+    import io
+    import contextlib
+    from tangermeme import ersatz as E
+    dts = [torch.float32, torch.float16, torch.bfloat16, torch.float64, torch.int8, torch.uint8, torch.int64, torch.bool]
+    lens = [5, 8, 13, 300, 1200, 12000] + ([40000] if tier != "quick" else [])
+    for L in lens:
+        A = 4
+        codes = numpy.stack([_longseq(L, A, k + seed % 3) for k in range(2)])
+        if L >= 1200:
+            # make one character dominate: > 2048 copies inside a 12 kb region whatever the generator does
+            codes[0, ::2] = 1
+        for dt in dts:
+            X = ohe(codes, A, dt)
+            Xc = X.clone()
+            for (s, e) in [(0, L), (1, L - 1)]:
+                for n in (1, 2, 5) if L <= 300 else (2,):
+                    ref = None
+                    for verbose in (False, True):
+                        case = dict(fn="dinucleotide_shuffle", A=A, L=L, start=s, end=e, n=n, seed=seed + 2, dtype=str(dt), verbose=verbose,
+                                    generator="_longseq/variants")
+                        buf = io.StringIO()
+                        with contextlib.redirect_stdout(buf):
+                            st, val = call(E.dinucleotide_shuffle, X, start=s, end=e, n=n, random_state=seed + 2, verbose=verbose)
+                        rec.case(1, 1)
+                        if st != "ok":
+                            if "identical" in str(val):
+                                rec.count("refused_identical")
+                                continue
+                            if dt == torch.bool and "bool" in str(val):
+                                rec.count("refused_bool")  # loud refusal of a storage type, not a wrong shuffle
+                                continue
+                            rec.violation("dinucleotide:compiled_raises", case, observed=val)
+                            continue
+                        g, ok = decode(val.to(torch.float32))
+                        if not ok or tuple(val.shape) != (2, n, A, L):
+                            rec.violation("dinucleotide:not_one_hot", case)
+                            continue
+                        if not (g[:, :, :s] == codes[:, None, :s]).all() or not (g[:, :, e:] == codes[:, None, e:]).all():
+                            rec.violation("dinucleotide:flank_changed", case)
+                            continue
+                        bad = [(b, j) for b in range(2) for j in range(n)
+                               if pairs(tuple(g[b, j, s:e])) != pairs(tuple(codes[b, s:e])) or g[b, j, s] != codes[b, s] or g[b, j, e - 1] != codes[b, e - 1]]
+                        if bad:
+                            rec.violation("dinucleotide:pairs_not_preserved", dict(case, row=bad[0][0], shuffle=bad[0][1]))
+                            continue
+                        if ref is None:
+                            ref = g
+                        elif not (ref == g).all():
+                            # printing a warning must not change what is returned
+                            rec.violation("dinucleotide:not_deterministic:verbose", case)
+                        if not torch.equal(X, Xc):
+                            rec.violation("dinucleotide:input_modified", case)
+                            X = Xc.clone()
+                        rec.count("traces_validated_against_impl")
+                        rec.observe(L, str(dt), s, n, verbose, int(g[:, :, :40].sum()))
+            # mononucleotide shuffle with the same storage types
+            st, val = call(E.shuffle, X, n=2, random_state=seed + 1)
+            rec.case(1, 1)
+            case = dict(fn="shuffle", A=A, L=L, n=2, seed=seed + 1, dtype=str(dt), generator="_longseq/variants")
+            if st != "ok":
+                rec.violation("shuffle:raises", case, observed=val)
+            else:
+                g, ok = decode(val.to(torch.float32))
+                if not ok or not (numpy.sort(g, axis=2) == numpy.sort(codes[:, None], axis=2)).all():
+                    rec.violation("shuffle:composition_changed", case)
+            if not torch.equal(X, Xc):
+                rec.violation("shuffle:input_modified", case)
+    rec.sample(dict(kind="variants", dtypes=[str(d) for d in dts], lengths=lens, verbose=[False, True], n=[1, 2, 5]))
+
+
 def run_shard(sh, tier, seed):
     rec = Recorder(PID, sh["name"])
     k = sh["kind"]
+    if k == "variants":
+        run_variants(rec, tier, seed)
+        return rec.result()
     if k == "mono":
         run_mono(rec, sh, tier, seed)
     elif k == "di":
@@ -414,6 +492,8 @@ def replay(v):
         codes = tuple("ACGT".index(ch) for ch in c["seq"])
         di_outcomes(E, codes, c["A"], c.get("n_shuffles", 1), rec, dict(fn=c["fn"], A=c["A"], seq=c["seq"], n_shuffles=c.get("n_shuffles", 1)))
         run_di(rec, dict(A=c["A"], L=len(codes), part=0, parts=1), "quick", 0) if len(codes) <= 4 else None
+    elif c.get("generator") == "_longseq/variants":
+        run_variants(rec, "quick", c.get("seed", 2) - (2 if c["fn"] == "dinucleotide_shuffle" else 1))
     elif c.get("generator") == "_longseq" and c["fn"] == "dinucleotide_shuffle":
         run_sweep_di(rec, "quick", c.get("seed", 5) - 5 if c.get("seed", 0) >= 5 else 0)
     elif c.get("generator") == "_longseq":
